@@ -140,16 +140,16 @@ def assignK (σ : State) (lhs : List LV) (msg : String) (vs : List Val) : Out :=
 
 /-- what a call of a translated function makes of the callee's outcome -/
 def retK (σ : State) (lhs : List LV) (f : String) : Out → Out
-  | .ret rs σ' => assignK { σ with fld := σ'.fld } lhs ("result arity of " ++ f) rs
-  | .normal σ' => if lhs.isEmpty then .normal { σ with fld := σ'.fld } else .stuck ("missing return in " ++ f)
+  | .ret rs σ' => assignK { σ with fld := σ'.fld } lhs (msg "result arity of" f) rs
+  | .normal σ' => if lhs.isEmpty then .normal { σ with fld := σ'.fld } else .stuck (msg "missing return in" f)
   | .brk _ => .stuck "break outside loop"
   | .cont _ => .stuck "continue outside loop"
   | o => o
 
 @[simp] theorem retK_ret (σ : State) (lhs : List LV) (f : String) (rs : List Val) (σ' : State) :
-    retK σ lhs f (.ret rs σ') = assignK { σ with fld := σ'.fld } lhs ("result arity of " ++ f) rs := rfl
+    retK σ lhs f (.ret rs σ') = assignK { σ with fld := σ'.fld } lhs (msg "result arity of" f) rs := rfl
 @[simp] theorem retK_normal (σ : State) (lhs : List LV) (f : String) (σ' : State) :
-    retK σ lhs f (.normal σ') = if lhs.isEmpty then .normal { σ with fld := σ'.fld } else .stuck ("missing return in " ++ f) := rfl
+    retK σ lhs f (.normal σ') = if lhs.isEmpty then .normal { σ with fld := σ'.fld } else .stuck (msg "missing return in" f) := rfl
 @[simp] theorem retK_panic (σ : State) (lhs : List LV) (f : String) (p : Panic) : retK σ lhs f (.panic p) = .panic p := rfl
 @[congr] theorem retK_congr (σ : State) (lhs : List LV) (f : String) {o o' : Out} (h : o = o') :
     retK σ lhs f o = retK σ lhs f o' := by rw [h]
@@ -211,8 +211,8 @@ theorem exec_succ (fuel : Nat) (s : Stmt) : exec X (fuel + 1) s σ = execS X (ex
 @[simp] theorem execS_callX (lhs : List LV) (f : String) (args : List Expr) :
     execS X rec (.callX lhs f args) σ = (evalEs X σ args).out fun vs =>
       match X.ext f vs with
-      | some rs => assignK σ lhs ("result arity of " ++ f) rs
-      | none => .stuck ("intrinsic " ++ f) := by
+      | some rs => assignK σ lhs (msg "result arity of" f) rs
+      | none => .stuck (msg "intrinsic" f) := by
   simp only [execS, Res.out, assignK]; cases evalEs X σ args <;> rfl
 
 @[simp] theorem execS_call (lhs : List LV) (f : String) (args : List Expr) :
@@ -221,8 +221,8 @@ theorem exec_succ (fuel : Nat) (s : Stmt) : exec X (fuel + 1) s σ = execS X (ex
       | some fn =>
         if fn.params.length = vs.length then
           retK σ lhs f (rec fn.body { loc := fn.params.zip vs ++ fn.named, fld := σ.fld })
-        else .stuck ("argument arity of " ++ f)
-      | none => .stuck ("unknown function " ++ f) := by
+        else .stuck (msg "argument arity of" f)
+      | none => .stuck (msg "unknown function" f) := by
   simp only [execS, Res.out]
   cases evalEs X σ args <;> rfl
 
@@ -270,7 +270,59 @@ end
 
 /-! ## expressions -/
 
-attribute [simp] evalE evalEs evalOpt Env.get Env.set State.assign State.assign1
+attribute [simp] evalEs evalOpt Env.get Env.set State.assign State.assign1
+
+/-- the right operand of `&&` / `||` must be a boolean -/
+def boolK : Val → Res Val
+  | .bool r => .ok (.bool r)
+  | _ => .stuck "operand"
+
+@[simp] theorem boolK_bool (b : Bool) : boolK (.bool b) = .ok (.bool b) := rfl
+
+/-- `a && b` after `a` has been evaluated -/
+def andK (rb : Res Val) : Val → Res Val
+  | .bool true => rb.bind boolK
+  | .bool false => .ok (.bool false)
+  | _ => .stuck "operand"
+
+def orK (rb : Res Val) : Val → Res Val
+  | .bool false => rb.bind boolK
+  | .bool true => .ok (.bool true)
+  | _ => .stuck "operand"
+
+@[simp] theorem andK_bool (rb : Res Val) (b : Bool) : andK rb (.bool b) = if b then rb.bind boolK else .ok (.bool false) := by
+  cases b <;> rfl
+@[simp] theorem orK_bool (rb : Res Val) (b : Bool) : orK rb (.bool b) = if b then .ok (.bool true) else rb.bind boolK := by
+  cases b <;> rfl
+
+section
+variable (X : Ctx) (σ : State)
+@[simp] theorem evalE_lit (v : Val) : evalE X σ (.lit v) = .ok v := by simp [evalE]
+@[simp] theorem evalE_loc (x : String) :
+    evalE X σ (.loc x) = match σ.loc.get x with | some v => .ok v | none => .stuck (msg "unset local" x) := by
+  simp only [evalE]; cases Env.get x σ.loc <;> rfl
+@[simp] theorem evalE_fld (x : String) :
+    evalE X σ (.fld x) = match σ.fld.get x with | some v => .ok v | none => .stuck (msg "unset field" x) := by
+  simp only [evalE]; cases Env.get x σ.fld <;> rfl
+@[simp] theorem evalE_un (op : UnOp) (e : Expr) : evalE X σ (.un op e) = (evalE X σ e).bind (evalUn op) := by simp [evalE]
+@[simp] theorem evalE_bin (op : BinOp) (a b : Expr) :
+    evalE X σ (.bin op a b) = (evalE X σ a).bind fun va => (evalE X σ b).bind fun vb => evalBin op va vb := by simp [evalE]
+@[simp] theorem evalE_and (a b : Expr) : evalE X σ (.and a b) = (evalE X σ a).bind (andK (evalE X σ b)) := by
+  simp only [evalE]; congr
+@[simp] theorem evalE_or (a b : Expr) : evalE X σ (.or a b) = (evalE X σ a).bind (orK (evalE X σ b)) := by
+  simp only [evalE]; congr
+@[simp] theorem evalE_conv (t : Ty) (e : Expr) :
+    evalE X σ (.conv t e) = (evalE X σ e).bind fun v => (asInt v).bind fun i => .ok (.int (wrap t i)) := by simp [evalE]
+@[simp] theorem evalE_len (e : Expr) : evalE X σ (.len e) = (evalE X σ e).bind lenVal := by simp [evalE]
+@[simp] theorem evalE_index (a i : Expr) :
+    evalE X σ (.index a i) = (evalE X σ a).bind fun va => (evalE X σ i).bind fun vi => indexVal va vi := by simp [evalE]
+@[simp] theorem evalE_slice (a : Expr) (lo hi : Option Expr) :
+    evalE X σ (.slice a lo hi) = (evalE X σ a).bind fun va =>
+      (evalOpt X σ lo (.int 0)).bind fun vlo => (lenVal va).bind fun n => (evalOpt X σ hi n).bind fun vhi =>
+      (asInt vlo).bind fun l => (asInt vhi).bind fun h => sliceVal va l h := by simp [evalE]
+@[simp] theorem evalE_call (f : String) (args : List Expr) :
+    evalE X σ (.call f args) = (evalEs X σ args).bind (callVal X f) := by simp [evalE]
+end
 
 @[simp] theorem evalUn_not (b : Bool) : evalUn .not (.bool b) = .ok (.bool (!b)) := rfl
 @[simp] theorem evalUn_neg (t : Ty) (v : Int) : evalUn (.neg t) (.int v) = .ok (.int (wrap t (-v))) := rfl
@@ -352,7 +404,7 @@ theorem byte_eq_lit (b : UInt8) (k : Nat) (hk : k < 256) : ((b.toNat : Int) = (k
       | some v => .ok v
       | none => match X.ext f args with
         | some [v] => .ok v
-        | _ => .stuck ("call " ++ f) := rfl
+        | _ => .stuck (msg "call" f) := rfl
 
 @[simp] theorem builtin_append_byte (s : Bytes) (c : Int) :
     builtin "append" [.bytes s, .int c] = some (.bytes (s ++ [UInt8.ofNat c.toNat])) := rfl
@@ -366,6 +418,12 @@ theorem byte_eq_lit (b : UInt8) (k : Nat) (hk : k < 256) : ((b.toNat : Int) = (k
     builtin "bytes.IndexByte" [.bytes s, .int c] = some (.int (indexByte s (UInt8.ofNat c.toNat))) := rfl
 @[simp] theorem builtin_lastIndexByte (s : Bytes) (c : Int) :
     builtin "strings.LastIndexByte" [.bytes s, .int c] = some (.int (lastIndexByte s (UInt8.ofNat c.toNat))) := rfl
+/-- a name that is not a builtin (the hypothesis is closed by `by decide`) -/
+theorem builtin_none (f : String) (args : List Val)
+    (h : ¬ (f = "min" ∨ f = "max" ∨ f = "bytes.IndexByte" ∨ f = "strings.IndexByte" ∨ f = "strings.LastIndexByte" ∨
+      f = "append" ∨ f = "append...")) : builtin f args = none := by
+  simp only [not_or] at h
+  simp [builtin, h]
 
 @[simp] theorem assignK_def (σ : State) (lhs : List LV) (msg : String) (vs : List Val) :
     assignK σ lhs msg vs = match σ.assign lhs vs with
